@@ -21,7 +21,7 @@ Here is a semantic property that chalk is supposed to satisfy (JSON record):
 YOUR TASK: produce ONE realistic code change (a bug a developer could plausibly introduce: a refactor slip, an over-eager optimisation, a dropped case, a wrong guard, two cooperating sites that each look fine alone ...) to the chalk sources in {wt} such that:
  1. the workspace still compiles and the ENTIRE existing test suite still passes:  `cd {wt} && cargo test --workspace --offline --no-fail-fast 2>&1 | grep -E "^test result|FAILED|panicked"`  (all `test result:` lines must say ok; there are 550 tests; first run takes a minute or two);
  2. the property above is now BROKEN, but only in a way that needs something specific to manifest - a particular unusual input, a multi-step sequence of operations on the same solver, an interruption / crash / panic at a particular point, a particular ordering, or two cooperating sites - NOT something ordinary use would expose at once (that is why the existing tests do not notice);
- 3. you have a DEMONSTRATION: a new test (preferred: add a test file/module under `tests/` or a `#[test]` in the touched crate) or a small program that FAILS with your change and PASSES without it. Verify both directions yourself: run it with the change applied (must fail), then `git stash` / revert the source change (keeping the demonstration), run it again (must pass), then re-apply the change.
+ 3. you have a DEMONSTRATION: a new test (preferred: add a test file/module under `tests/` or a `#[test]` in the touched crate) or a small program that FAILS with your change and PASSES without it. Verify both directions yourself: run it with the change applied (must fail), then revert the source change while keeping the demonstration (`git diff -- <production files> > {wt}/my_change.diff; git checkout -- <production files>`), run it again (must pass), then re-apply the change (`git apply {wt}/my_change.diff`). NEVER use `git stash`: the stash is shared by every worktree of this repository and other people are working in sibling worktrees.
 
 Do not modify existing tests. Do not make the change conditional on weird magic constants or environment variables; it should look like a plausible edit of production code. Keep it small (a few lines to a few dozen lines). Prefer a change in the files the property's `anchors` mention, but anything in the workspace is allowed. {extra}
 
